@@ -90,4 +90,10 @@ PROPS = {
         'decided': 'absence of panics, arithmetic overflow, out-of-bounds indexing and non-termination (under the stated preconditions) in the front-end leaves under contract: Stream::read / set_seek / get_seek, IRReader::backup, Bytes accessors and concat, atom_from_stream, atom_size_blob, int_from_bytes, get_u32, Srcloc arithmetic incl. len, is_hex / is_space / is_eol, has_oversized_sign_extension, ir_for_atom',
         'not_covered': ['the readers as wholes (parse_sexp, read_ir, sexp_from_stream): bounded stand-in only (E3 no-panic sweep, bound stated in evidence)', 'compile, run, debug, REPL, dependency listing as wholes', 'located-error clause beyond C15', 'preconditions at unverified call sites (e.g. Stream length >= 1 at IRReader::backup) are assumptions'],
     },
+    'C19': {
+        'units': ['atomicwrite'],
+        'decided': 'the mechanism only: atomic_write_file creates its temporary file in the directory of the target, writes exactly the new contents to it, and the target is only ever replaced by persisting that file (a rename within one directory); no other file-writing call occurs in atomic_write_file / gentle_overwrite; gentle_overwrite succeeds whenever old and new contents are equal up to surrounding whitespace, whatever the rewrite attempt returns',
+        'not_covered': ['atomicity of rename(2) (ASSUMED)', 'the whole "at every instant / killed at any point / concurrent readers" quantifier: no verifier here models crash points or concurrent observers', 'callers in clvmc.rs / py api'],
+        'assumptions': ['POSIX: rename(2) within one directory replaces the target atomically', 'tempfile::NamedTempFile::persist is rename(2) when source and target are on the same file system'],
+    },
 }
